@@ -12,6 +12,7 @@ import (
 	"go/token"
 	"os"
 	"path/filepath"
+	"regexp"
 	"sort"
 	"strconv"
 	"strings"
@@ -153,6 +154,133 @@ func leanStrList(xs []string) string {
 	return "[" + strings.Join(q, ", ") + "]"
 }
 
+// canon renders an expression of function fd with the names of its receiver, parameters and local variables replaced by
+// role placeholders, so that facts about "which value goes where" survive a renaming: the receiver is $recv, the i-th
+// parameter $param<i>, a local variable first defined from a call $local<callee> (callee rendered the same way), any other
+// local $local. Package-level names, fields and methods are left alone.
+func canon(fd *ast.FuncDecl, n ast.Node) string {
+	names := map[string]string{}
+	if fd.Recv != nil {
+		for _, f := range fd.Recv.List {
+			for _, id := range f.Names {
+				names[id.Name] = "$recv"
+			}
+		}
+	}
+	i := 0
+	for _, f := range fd.Type.Params.List {
+		for _, id := range f.Names {
+			names[id.Name] = fmt.Sprintf("$param%d", i)
+			i++
+		}
+		if len(f.Names) == 0 {
+			i++
+		}
+	}
+	if fd.Type.Results != nil {
+		for _, f := range fd.Type.Results.List {
+			for _, id := range f.Names {
+				if id.Name != "_" {
+					names[id.Name] = "$result"
+				}
+			}
+		}
+	}
+	render := func(x ast.Node) string {
+		text := src(x)
+		var out strings.Builder
+		k := 0
+		for k < len(text) {
+			c := text[k]
+			if c == '_' || (c >= 'a' && c <= 'z') || (c >= 'A' && c <= 'Z') {
+				j := k
+				for j < len(text) && (text[j] == '_' || (text[j] >= 'a' && text[j] <= 'z') || (text[j] >= 'A' && text[j] <= 'Z') || (text[j] >= '0' && text[j] <= '9')) {
+					j++
+				}
+				word := text[k:j]
+				prev := strings.TrimRight(text[:k], " \t\n")
+				afterDot := strings.HasSuffix(prev, ".")
+				if r, ok := names[word]; ok && !afterDot {
+					out.WriteString(r)
+				} else {
+					out.WriteString(word)
+				}
+				k = j
+				continue
+			}
+			out.WriteByte(c)
+			k++
+		}
+		return out.String()
+	}
+	define := func(id *ast.Ident, rhs ast.Expr) {
+		if id == nil || id.Name == "_" {
+			return
+		}
+		if _, known := names[id.Name]; known {
+			return
+		}
+		label := "$local"
+		if ce, ok := rhs.(*ast.CallExpr); ok {
+			label = "$local<" + render(ce.Fun) + ">"
+		}
+		names[id.Name] = label
+	}
+	ast.Inspect(fd.Body, func(m ast.Node) bool {
+		switch st := m.(type) {
+		case *ast.AssignStmt:
+			if st.Tok == token.DEFINE {
+				for k, l := range st.Lhs {
+					id, _ := l.(*ast.Ident)
+					var rhs ast.Expr
+					if len(st.Rhs) == 1 {
+						rhs = st.Rhs[0]
+					} else if k < len(st.Rhs) {
+						rhs = st.Rhs[k]
+					}
+					define(id, rhs)
+				}
+			}
+		case *ast.RangeStmt:
+			if st.Tok == token.DEFINE {
+				if id, ok := st.Key.(*ast.Ident); ok {
+					define(id, nil)
+				}
+				if id, ok := st.Value.(*ast.Ident); ok {
+					define(id, nil)
+				}
+			}
+		case *ast.DeclStmt:
+			if gd, ok := st.Decl.(*ast.GenDecl); ok {
+				for _, sp := range gd.Specs {
+					if vs, ok := sp.(*ast.ValueSpec); ok {
+						for k, id := range vs.Names {
+							var rhs ast.Expr
+							if k < len(vs.Values) {
+								rhs = vs.Values[k]
+							}
+							define(id, rhs)
+						}
+					}
+				}
+			}
+		}
+		return true
+	})
+	return render(n)
+}
+
+// matchRole: does text (rendered by canon) contain pattern, where every § in the pattern stands for any role placeholder
+// ($recv, $param<i>, $result, $local, $local<callee>)?
+func matchRole(text, pattern string) bool {
+	parts := strings.Split(pattern, "§")
+	for k := range parts {
+		parts[k] = regexp.QuoteMeta(parts[k])
+	}
+	re := regexp.MustCompile(strings.Join(parts, `\$[a-z]+[0-9]*(?:<[^<>]*(?:<[^<>]*>)?[^<>]*>)?`))
+	return re.MatchString(text)
+}
+
 func leanBool(b bool) string {
 	if b {
 		return "true"
@@ -234,7 +362,7 @@ func main() {
 		lockArg := ""
 		ast.Inspect(fd, func(m ast.Node) bool {
 			if ce, ok := m.(*ast.CallExpr); ok && src(ce.Fun) == "os.OpenFile" {
-				lockArg = src(ce.Args[0])
+				lockArg = canon(fd, ce.Args[0])
 			}
 			return true
 		})
@@ -249,6 +377,12 @@ func main() {
 			if is, ok := m.(*ast.IfStmt); ok && src(is.Cond) == "projectLocked" {
 				guarded = true
 			}
+			// the same guard written as an early return: if !projectLocked { return … }
+			if is, ok := m.(*ast.IfStmt); ok && src(is.Cond) == "!projectLocked" && is.Else == nil && len(is.Body.List) > 0 {
+				if _, isRet := is.Body.List[len(is.Body.List)-1].(*ast.ReturnStmt); isRet {
+					guarded = true
+				}
+			}
 			if ce, ok := m.(*ast.CallExpr); ok && src(ce.Fun) == "os.Remove" {
 				rmArg = src(ce.Args[0])
 			}
@@ -262,7 +396,7 @@ func main() {
 	if fd := funcDecl(rootGo, "fatal"); fd != nil {
 		cs := calls(fd)
 		p("def fatalCalls : List String := %s\n", leanStrList(cs))
-		p("def fatalSkipsUnlockOnLocked : Bool := %s\n", leanBool(strings.Contains(src(fd), "!errors.Is(err, projectLockedError{})")))
+		p("def fatalSkipsUnlockOnLocked : Bool := %s\n", leanBool(matchRole(canon(fd, fd.Body), "!errors.Is(§, projectLockedError{})")))
 	} else {
 		p("def fatalCalls : List String := []\ndef fatalSkipsUnlockOnLocked : Bool := false\n")
 	}
@@ -281,7 +415,7 @@ func main() {
 		p("def copyFlags : List String := %s\ndef copyMode : Nat := %d\ndef copyFlagsKnown : Bool := %s\n", leanStrList(fl), mode, leanBool(ok))
 		p("def checkoutFileCalls : List String := %s\n", leanStrList(calls(fd)))
 		// the checksum comparison guarding success of the copy
-		p("def copyVerifies : Bool := %s\n", leanBool(strings.Contains(src(fd), "checksum != art.Checksum")))
+		p("def copyVerifies : Bool := %s\n", leanBool(matchRole(canon(fd, fd.Body), "§ != §.Checksum") || matchRole(canon(fd, fd.Body), "§.Checksum != §")))
 		// Remove only under ContentsMatch
 		removeGuarded := false
 		ast.Inspect(fd, func(m ast.Node) bool {
@@ -364,11 +498,11 @@ func main() {
 			if ce, ok := m.(*ast.CallExpr); ok {
 				switch src(ce.Fun) {
 				case "os.Rename":
-					renameArgs = src(ce.Args[0]) + "," + src(ce.Args[1])
+					renameArgs = canon(fd, ce.Args[0]) + "," + canon(fd, ce.Args[1])
 				case "os.Chmod":
-					chmodArgs = src(ce.Args[0]) + "," + src(ce.Args[1])
+					chmodArgs = canon(fd, ce.Args[0]) + "," + canon(fd, ce.Args[1])
 				case "os.CreateTemp":
-					p("def commitTempDir : String := %s\n", strconv.Quote(src(ce.Args[0])))
+					p("def commitTempDir : String := %s\n", strconv.Quote(canon(fd, ce.Args[0])))
 				}
 			}
 			return true
@@ -379,20 +513,24 @@ func main() {
 		var order []string
 		for _, c := range calls(fd) {
 			switch c {
-			case "ch.commitBytes", "os.Remove", "checkoutFile", "checksum.Checksum", "os.Rename", "os.RemoveAll":
+			case "os.Remove", "checkoutFile", "checksum.Checksum", "os.Rename", "os.RemoveAll":
 				order = append(order, c)
+			default:
+				if strings.HasSuffix(c, ".commitBytes") {
+					order = append(order, "commitBytes")
+				}
 			}
 		}
 		p("def commitFileOrder : List String := %s\n", leanStrList(order))
-		p("def commitFileSkipBeforeCache : Bool := %s\n", leanBool(strings.Index(src(fd), "art.SkipCache") >= 0 && strings.Index(src(fd), "art.SkipCache") < strings.Index(src(fd), "ch.commitBytes")))
+		p("def commitFileSkipBeforeCache : Bool := %s\n", leanBool(strings.Index(src(fd), ".SkipCache") >= 0 && strings.Index(src(fd), ".SkipCache") < strings.Index(src(fd), ".commitBytes(")))
 	}
 	if fd := funcDecl(commitGo, "commitDirArtifact"); fd != nil {
 		p("def commitDirChecksSkip : Bool := %s\n", leanBool(strings.Contains(src(fd), "SkipCache")))
 	}
 	if fd := funcDecl(commitGo, "commitWorker"); fd != nil {
-		s := src(fd)
-		p("def workerReusesOldChild : Bool := %s\n", leanBool(strings.Contains(s, "dirMan.Contents[path]")))
-		p("def workerChecksKind : Bool := %s\n", leanBool(strings.Contains(s, "entry.IsDir() ==") || strings.Contains(s, "== entry.IsDir()") || strings.Contains(s, "!= entry.IsDir()") || strings.Contains(s, "entry.IsDir() !=")))
+		s := canon(fd, fd.Body)
+		p("def workerReusesOldChild : Bool := %s\n", leanBool(matchRole(s, "§.Contents[§]")))
+		p("def workerChecksKind : Bool := %s\n", leanBool(matchRole(s, "§.IsDir() ==") || matchRole(s, "== §.IsDir()") || matchRole(s, "!= §.IsDir()") || matchRole(s, "§.IsDir() !=")))
 	}
 
 	// --- ownership walk
@@ -428,7 +566,8 @@ func main() {
 		cs := calls(fd)
 		ri, ci := -1, -1
 		for i, c := range cs {
-			if c == "h.Reset" && ri < 0 {
+			// whatever the hasher variable is called
+			if strings.HasSuffix(c, ".Reset") && !strings.Contains(strings.TrimSuffix(c, ".Reset"), ".") && ri < 0 {
 				ri = i
 			}
 			if c == "io.CopyBuffer" && ci < 0 {
@@ -483,7 +622,15 @@ func main() {
 					if cc.Comm == nil {
 						out = append(out, "default")
 					} else {
-						out = append(out, src(cc.Comm))
+						// which parameter it is does not matter here, only that the channel is handed in / made locally
+						c := canon(fd, cc.Comm)
+						for d := 0; d <= 9; d++ {
+							c = strings.ReplaceAll(c, fmt.Sprintf("$param%d", d), "$param")
+						}
+						for strings.Contains(c, "$param0") || strings.Contains(c, "$param1") {
+							c = strings.ReplaceAll(strings.ReplaceAll(c, "$param0", "$param"), "$param1", "$param")
+						}
+						out = append(out, c)
 					}
 				}
 			}
@@ -500,8 +647,9 @@ func main() {
 			return out
 		}
 		ast.Inspect(fd, func(m ast.Node) bool {
-			if as, ok := m.(*ast.AssignStmt); ok && len(as.Lhs) == 1 && src(as.Lhs[0]) == "activeDedicatedWorkers" {
-				if ce, ok := as.Rhs[0].(*ast.CallExpr); ok && len(ce.Args) == 2 {
+			// the pool made per call (whatever the variable is called): x := make(chan struct{}, CAP)
+			if as, ok := m.(*ast.AssignStmt); ok && len(as.Lhs) == 1 && len(as.Rhs) == 1 {
+				if ce, ok := as.Rhs[0].(*ast.CallExpr); ok && src(ce.Fun) == "make" && len(ce.Args) == 2 && strings.HasPrefix(src(ce.Args[0]), "chan struct{}") {
 					out = src(ce.Args[1])
 				}
 			}
@@ -517,15 +665,31 @@ func main() {
 		key := "?"
 		ast.Inspect(fd, func(m ast.Node) bool {
 			if as, ok := m.(*ast.AssignStmt); ok && len(as.Lhs) == 1 {
-				if ie, ok := as.Lhs[0].(*ast.IndexExpr); ok && src(ie.X) == "children" {
-					key = src(ie.Index)
+				// the map of the next level's artifacts: an index assignment whose value is an Artifact of a manifest
+				if ie, ok := as.Lhs[0].(*ast.IndexExpr); ok && (src(ie.X) == "children" || strings.HasSuffix(src(ie.Index), ".Checksum") || strings.HasSuffix(src(ie.Index), ".Path")) {
+					key = canon(fd, ie.Index)
 				}
 			}
 			return true
 		})
 		p("def fetchChildKey : String := %s\n", strconv.Quote(key))
 	}
-	p("def pushSetsPerms : Bool := %s\n", leanBool(strings.Contains(src(pushGo), "setFilePerms(dst, fileSet, cacheFilePerms)")))
+	p("def pushSetsPerms : Bool := %s\n", leanBool(func() bool {
+		// remoteCopy (whatever its variables are called) ends by setting the permissions of what it copied to cacheFilePerms
+		for _, name := range []string{"remoteCopy"} {
+			if v := funcLitVar(pushGo, name); v != nil {
+				found := false
+				ast.Inspect(v, func(m ast.Node) bool {
+					if ce, ok := m.(*ast.CallExpr); ok && src(ce.Fun) == "setFilePerms" && len(ce.Args) == 3 && src(ce.Args[2]) == "cacheFilePerms" {
+						found = true
+					}
+					return true
+				})
+				return found
+			}
+		}
+		return strings.Contains(src(pushGo), "setFilePerms(") && strings.Contains(src(pushGo), ", cacheFilePerms)")
+	}()))
 
 	// --- init: refuses when already initialised?
 	{
